@@ -50,13 +50,14 @@ def figure (a : Agg) (scale : Rat) (d : Nat) (xs : List Rat) : List Char := fmtF
 
 /-! ## profile tables -/
 
-/-- the production-profile loop: `for i in range(L): row(i + 1, series[i * n])` (one row per simulated year, `n` time steps per year) -/
-def profileRows (L n : Nat) (series : List Rat) : List (Nat × Rat) :=
-  (List.range L).map (fun i => (i + 1, series.getD (i * n) 0))
+/-- the production-profile loop: `for i in range(L): row(first + i, series[i * n])` (one row per simulated year, `n` time steps per year;
+the electricity table numbers its years from `first = 1`, the heat tables from `first = 0`) -/
+def profileRows (first L n : Nat) (series : List Rat) : List (Nat × Rat) :=
+  (List.range L).map (fun i => (first + i, series.getD (i * n) 0))
 
-/-- the revenue / cash-flow profile: construction years then operating years, year index ascending from 1 (the table prints `cy + L` rows) -/
+/-- the revenue / cash-flow profile: construction years then operating years, "year since start" ascending from 0 (`cy + L` rows) -/
 def cashflowRows (cy L : Nat) (series : List Rat) : List (Nat × Rat) :=
-  (List.range (cy + L)).map (fun i => (i + 1, series.getD i 0))
+  (List.range (cy + L)).map (fun i => (i, series.getD i 0))
 
 end GeoVerif
 
